@@ -6,6 +6,12 @@
 //! sample_bits happened") reachable within the depth bound over the alphabet
 //!     op  observe(public base element)      xp  observe_ext(public extension element)
 //!     s   sample                            sx  sample_ext                 b3  sample_bits(3)
+//! plus the TARGET RE-USE actions (only inside histories of length <= 2 quick / <= 3 thorough
+//! for the two default configurations, 2 for the others; the state key is refined by which of
+//! them happened)
+//!     ro  observe again the target of the most recent op   (same target twice in one block)
+//!     rx  observe_ext again the target of the most recent xp
+//!     os  observe the target returned by the most recent s
 //! the BFS-shortest history reaching the state, followed by one more `sample`, is turned into
 //! a circuit by the REAL `CircuitChallenger` on a REAL `CircuitBuilder`: observed values are
 //! public inputs; every sampled target `t` (base sample, every sampled bit, extension sample)
@@ -51,6 +57,12 @@
 //!       input and its true permutation), outputs are chained / exposed / propagated, public
 //!       outputs re-chosen. This is the prover "choosing a part of the sponge state" that the
 //!       challenger assumes to be zero: initial capacity, zero padding of a partial absorb;
+//!   PI  every state limb of every permutation row whose witness slot feeds SEVERAL limbs of
+//!       that row (a re-observed target, the shared zero constant of padding / initial
+//!       capacity): that ONE input limb is incremented in the state the closure permutes and
+//!       in the recorded row, the slot keeps its value, outputs are propagated (F4 on such a
+//!       port deviates the shared scratch slot, i.e. all those limbs together) — role
+//!       `input-limb[shared-slot,first|repeat]`;
 //!   H   the honest trace itself (no deviation).
 //! Thorough additionally applies F2–F5 with the top basis element as delta for histories of
 //! length ≤ 3. (F1 on permutation / recompose cells cannot change the verdict of this oracle:
@@ -1491,14 +1503,19 @@ fn main() {
     let ddepth_opt: Option<usize> = ctx.opt("ddepth").and_then(|s| s.parse().ok());
     let direct_depth_of =
         |c: &dyn DynCfg| ddepth_opt.unwrap_or(if ctx.quick() { 2 } else { 4 }).min(depth_of(c));
-    // target re-use actions inside histories of length <= rdepth (quick 2, thorough 3)
-    let rdepth: usize = ctx.opt("rdepth").and_then(|s| s.parse().ok()).unwrap_or(if ctx.quick() { 2 } else { 3 });
+    // target re-use actions inside histories of length <= rdepth (quick 2; thorough 3 for the two
+    // configurations the recursion backends use, 2 for the other table combinations)
+    let rdepth_opt: Option<usize> = ctx.opt("rdepth").and_then(|s| s.parse().ok());
+    let rdepth_of = |c: &dyn DynCfg| {
+        rdepth_opt.unwrap_or(if !ctx.quick() && matches!(c.name(), "kb-d4+rc" | "kb-d5-base+rc+ctl") { 3 } else { 2 })
+    };
+    let rdepth = selected.iter().map(|c| rdepth_of(c.as_ref())).max().unwrap_or(2);
     let mut variants: Vec<(usize, Mode)> = vec![]; // (index into `selected`, mode)
     let mut plan: Vec<(usize, Vec<Act>)> = vec![]; // (variant index, history without the final sample)
     let mut total_states = 0usize;
     let mut total_transitions = 0usize;
     for (ci, cfg) in selected.iter().enumerate() {
-        let (hs, tr) = bfs_states(cfg.as_ref(), depth_of(cfg.as_ref()), rdepth, ctx.seed)
+        let (hs, tr) = bfs_states(cfg.as_ref(), depth_of(cfg.as_ref()), rdepth_of(cfg.as_ref()), ctx.seed)
             .unwrap_or_else(|e| machinery_error(&format!("{}: automaton exploration: {e}", cfg.name())));
         total_states += hs.len();
         total_transitions += tr;
@@ -1506,7 +1523,7 @@ fn main() {
         per_cfg.push(json!({"config": cfg.describe(), "automaton_states_within_depth": hs.len(),
             "automaton_transitions_executed": tr, "depth": depth_of(cfg.as_ref()),
             "exposure_modes": modes.iter().map(|m| m.tag()).collect::<Vec<_>>(),
-            "depth_in_mode_direct": dd,
+            "depth_in_mode_direct": dd, "target_reuse_depth": rdepth_of(cfg.as_ref()),
             "histories_in_mode_direct": if modes.contains(&Mode::Direct) { hs.iter().filter(|h| h.len() <= dd).count() } else { 0 }}));
         for m in &modes {
             let vi = variants.len();
@@ -1770,7 +1787,7 @@ fn main() {
     let cov = json!({
         "evaluations": evaluations,
         "distinct_nontrivial": candidates,
-        "rule": "one evaluation = one single deviation (H honest / F2 slot with forward propagation / F4 row-local port deviation with propagation / F3 public slot in all rows without propagation / F1 Public-table cell / F5 slot-less input limb of a permutation row deviated, the row re-executed by the repository's executor and its outputs propagated / P permutation closure deviating on call k limb j with in-table chaining; mode direct: every limb incl. the rate limbs aliased to public outputs) applied to the honest traces of the circuit the real CircuitChallenger builds for one (history, exposure mode); deviations are pairwise distinct by construction (every slot, port, cell, (call, limb) once per delta unit). Non-trivial = the deviation really changes the committed statement into an INCONSISTENT one (a committed sampled challenge differs from the native challenge of the committed observed values) AND the real prover+verifier decided it: a sound transcript must reject exactly these. Deviations that leave the trace unchanged (noop) or yield a consistent statement are counted separately and (unless --opt prove=all) not proved, because their verdict cannot change the oracle's answer",
+        "rule": "one evaluation = one single deviation (H honest / F2 slot with forward propagation / F4 row-local port deviation with propagation / F3 public slot in all rows without propagation / F1 Public-table cell / PI one input limb of a permutation row whose slot feeds several limbs of the row deviated in the permuted state and the recorded row / F5 slot-less input limb of a permutation row deviated, the row re-executed by the repository's executor and its outputs propagated / P permutation closure deviating on call k limb j with in-table chaining; mode direct: every limb incl. the rate limbs aliased to public outputs) applied to the honest traces of the circuit the real CircuitChallenger builds for one (history, exposure mode); deviations are pairwise distinct by construction (every slot, port, cell, (call, limb) once per delta unit). Non-trivial = the deviation really changes the committed statement into an INCONSISTENT one (a committed sampled challenge differs from the native challenge of the committed observed values) AND the real prover+verifier decided it: a sound transcript must reject exactly these. Deviations that leave the trace unchanged (noop) or yield a consistent statement are counted separately and (unless --opt prove=all) not proved, because their verdict cannot change the oracle's answer",
         "samples": *samples.lock().unwrap(),
         "exhaustive": exhaustive,
         "depth_bound": depth,
